@@ -28,6 +28,7 @@ RULE = (
     "sample().data / samples / covariance / RedshiftData equal up to rounding (samples permuted with the centres). Cases with a pair inside "
     "the ambiguity band of a scale edge or an object within 1e-12 (squared chord) of equidistant from two centres are discarded before the second run. "
     "Non-trivial: base DD counts non-zero in a cross-patch cell (and rotation angle > 1 degree for rotations); distinct = case digest."
+    " Extensions: base cases inherit C01's lattice scenes and library-derived centres (first catalog from a patch-index column, others with patch_centers=<that catalog>)."
 )
 ASSUMPTIONS = [
     "downstream tolerances: 1e-7 of the largest estimator term over the denominator (jackknife subtraction amplifies rounding), bins with non-finite terms not judged",
